@@ -358,7 +358,7 @@ func diffTimes(got, want tvDoc) string {
 }
 
 func suiteTtml(R *runner, r *rng) {
-	R.rule("ttml: ground-truth documents (1..5 cues; 0..6 styles whose parent links form a forest, several styles sharing a parent, parents defined before or after their children; 0..4 regions with style references; inline tts:* attributes on styles, regions, paragraphs and spans incl. empty values and characters needing escapes; title, copyright, xml:lang among the five mapped languages (with and without subtags), others and none; frameRate in {absent,0,1,8,12,24,25,30,48,50,60,100,120}, tickRate in {absent,1,3,7,10,60,1000,44100,48000,90000,10^7,27*10^6}; 1..5 lines of 0..3 runs, empty lines first/middle/last, bare text and spans, text over a palette with & < > quotes, accents, CJK, non-BMP, NBSP/ideographic space, combining marks) x renderings (each boundary in any syntax that denotes it exactly: clock time with 0-3 fraction digits, clock time with frames, offsets in h/m/s/ms with decimal fractions, f, t; indentation none/spaces/tab between elements and around <br/>; <br/> between elements or inside the element when both sides are one run; three namespace-prefix schemes; attribute order/quoting, character references); oracle: the reader returns the ground truth, every boundary = the denoted instant when that is a whole number of ns and otherwise within 1 ns of it; the same documents as trees through the extracted Coq reader model; time expressions: boundary grids per syntax and unit, exhaustive 0.000s..9.999s, frame grids for 8 rates, tick grids for 10 rates, random, malformed strings (model only); writer: values from the ground truth (XML-legal text incl. tab, CR, leading/trailing blanks; nil metadata, nil inline styles, nil map entries, indent option absent/\"\"/tab/spaces/newline) decoded by an independent encoding/xml-based decoder and by the library's reader: same cues (times truncated to ms), styles, regions, title, copyright, language; tree of the output vs the Coq writer model; non-trivial = at least one style or two lines")
+	R.rule("ttml: ground-truth documents (1..5 cues; 0..6 styles whose parent links form a forest, several styles sharing a parent, parents defined before or after their children; 0..4 regions with style references; inline tts:* attributes on styles, regions, paragraphs and spans incl. empty values and characters needing escapes; title, copyright, xml:lang among the five mapped languages (with and without subtags), others and none; frameRate in {absent,0,1,8,12,24,25,30,48,50,60,100,120}, tickRate in {absent,1,3,7,10,60,1000,44100,48000,90000,10^7,27*10^6}; 1..5 lines of 0..3 runs, empty lines first/middle/last, bare text and spans, text over a palette with & < > quotes, accents, CJK, non-BMP, NBSP/ideographic space, combining marks) x renderings (each boundary in any syntax that denotes it exactly: clock time with 0-3 fraction digits, clock time with frames, offsets in h/m/s/ms with decimal fractions, f, t; indentation none/spaces/tab between elements and around <br/>; <br/> between elements or inside the element when both sides are one run; three namespace-prefix schemes; attribute order/quoting, character references); oracle: the reader returns the ground truth, every boundary = the denoted instant when that is a whole number of ns and otherwise within 1 ns of it; the same documents as trees through the extracted Coq reader model; time expressions: boundary grids per syntax and unit, exhaustive 0.000s..9.999s, frame grids for 8 rates, tick grids for 10 rates, random, malformed strings (model only); writer: values from the ground truth (XML-legal text incl. tab, CR, leading/trailing blanks; nil metadata, nil inline styles, nil map entries, indent option absent/\"\"/tab/spaces/newline) decoded by an independent encoding/xml-based decoder and by the library's reader: same cues (times truncated to ms), styles, regions, title, copyright, language; bytes of the output vs the Coq writer model for every indent option, the harness's parse of them vs the model's indented tree, the Coq XML parser vs encoding/xml on them, and the byte-level reader model (Coq parser + tree reader) vs ReadFromTTML on them; non-trivial = at least one style or two lines")
 	N := 700
 	if R.tier == "thorough" {
 		N = 12000
@@ -707,6 +707,8 @@ func suiteTtml(R *runner, r *rng) {
 			o.Impl = (&enc{}).n(0).bytes(buf.Bytes()).String()
 			// the XML-layer contract on this output: parsing the bytes gives the model's tree with the encoder's indentation
 			R.add(&obs{Suite: "ttmlwritetree", Group: "ttml.write.tree", Input: o.Input, Impl: (&enc{}).n(0).xnode(root).String(), NT: o.NT})
+			// the Coq XML parser (Kit/XmlParse.v) on the implementation's bytes = encoding/xml's token tree
+			R.add(&obs{Suite: "xmlparse", Group: "ttml.write.xmlparse", Input: (&enc{}).bytes(buf.Bytes()).String(), Impl: (&enc{}).n(0).xnode(root).String(), NT: o.NT})
 			dec, derr := denoteTTML(root)
 			if derr != nil {
 				o.Oracle, o.Sig = "independent decoder rejects the writer's output: "+derr.Error(), "ttml-write-decoder"
@@ -730,6 +732,8 @@ func suiteTtml(R *runner, r *rng) {
 				break
 			}
 			bv, problems := projectSubs(back)
+			// byte-level reader model (Coq XML parser, then the tree reader) on the implementation's bytes vs ReadFromTTML
+			R.add(&obs{Suite: "ttmlreadbytes", Group: "ttml.write.readbytes", Input: (&enc{}).bytes(buf.Bytes()).String(), Impl: (&enc{}).n(0).tdoc(bv).String(), NT: o.NT})
 			if len(problems) > 0 {
 				o.Oracle, o.Sig = "write then read: "+problems[0], "ttml-write-read-identity"
 			} else if m, sig := diffDocs(bv, want, true); m != "" {
